@@ -1,9 +1,12 @@
 package props
 
 import (
+	"encoding/json"
 	"fmt"
 	"sort"
 	"strings"
+
+	"github.com/go-openapi/spec"
 
 	"verif/harness/gen"
 	"verif/harness/lib"
@@ -88,7 +91,7 @@ func (p *c07) Run(w *lib.Worker, idx int, r *lib.Rand) lib.Case {
 			c.Evals = 0
 			return c
 		}
-		if o.Panic != "" && cont && sut.IsDocumentedSchemaPanic(o.Panic) && docHasUnresolvableRef(text) {
+		if knownC07Panic(o, cont, text) {
 			// recorded finding: with continue-on-errors the default / example validators compile schemas whose
 			// references were already reported as unresolvable, and the documented invalid-schema panic escapes
 			c.Known = []string{"invalid-schema-panic-escapes-default-example-validation"}
@@ -123,8 +126,22 @@ func (p *c07) Finish(a *lib.Aggregate) (broken []string) {
 	return
 }
 
-// docHasUnresolvableRef tells whether the document (JSON or YAML text) holds a $ref which does not
-// resolve inside the document itself (dangling local pointer, or a reference to another file / URL).
+// knownC07Panic recognises the recorded finding invalid-schema-panic-escapes-default-example-validation by its
+// call site and input class: continue-on-errors, the documented invalid-schema panic raised by newSchemaValidator
+// below the default / example validators, on a document holding a $ref which cannot be expanded into a schema.
+func knownC07Panic(o sut.SpecOutcome, cont bool, text []byte) bool {
+	if o.Panic == "" || !cont || !sut.IsDocumentedSchemaPanic(o.Panic) {
+		return false
+	}
+	if !strings.Contains(o.Stack, "(*defaultValidator)") && !strings.Contains(o.Stack, "(*exampleValidator)") {
+		return false
+	}
+	return docHasUnresolvableRef(text)
+}
+
+// docHasUnresolvableRef tells whether the document (JSON or YAML text) holds a $ref which cannot be expanded
+// into a schema: it does not resolve inside the document itself (dangling local pointer, or a reference to
+// another file / URL), or what it resolves to does not decode as a schema object.
 func docHasUnresolvableRef(text []byte) bool {
 	doc, err := sut.LoadSpec(text)
 	if err != nil {
@@ -141,7 +158,10 @@ func docHasUnresolvableRef(text []byte) bool {
 		switch x := v.(type) {
 		case map[string]any:
 			if r, ok := x["$ref"].(string); ok {
-				if _, ok := c.Resolve(r); !ok {
+				target, ok := c.Resolve(r)
+				if !ok {
+					found = true
+				} else if b, err := json.Marshal(target); err != nil || json.Unmarshal(b, new(spec.Schema)) != nil {
 					found = true
 				}
 			}
